@@ -18,6 +18,8 @@
 # However, it appears that Python's names and code have been copied a bit heavily from
 # earlier versions of xdis (and without attribution).
 
+import sys
+import types
 from typing import List
 
 from xdis.util import (
@@ -165,6 +167,16 @@ def findlinestarts(code, dup_lines=False, unsigned_deltas=False, stop_at_end=Tru
     """
 
     if hasattr(code, "co_lines"):
+        if isinstance(code, types.CodeType) and sys.version_info >= (3, 13):
+            # A code object of the running 3.13+ interpreter. Since 3.13,
+            # dis.findlinestarts() also reports where a range with no
+            # line starts; see opcode_313.findlinestarts_313().
+            lastline = False  # None is a valid line number
+            for start, _, line in code.co_lines():
+                if line is not lastline:
+                    lastline = line
+                    yield start, line
+            return
         # Taken from 3.10 findlinestarts
         lastline = None
         for start, _, line in code.co_lines():
